@@ -48,3 +48,25 @@ package filtering
 //@   callsite os.ReadFile(name) requires name == f.FilePath
 
 //@ sweep C17 os.Open, os.ReadFile, os.OpenFile
+
+// ---- C14 / C15: filter files are replaced atomically, and only after a successful parse of changed content ----
+
+// The pending (temporary) file replaces the list file exactly when the update succeeded with a changed checksum;
+// otherwise it is cleaned up.  finalizeUpdate must not be asked to replace the file after a failure.
+//@ func (d *DNSFilter) finalizeUpdate(file aghrenameio.PendingFile, flt *FilterYAML, res *rulelist.ParseResult, returned error, updated bool) (err error)
+//@   property C14, C15
+//@   requires no-replace-after-failure: updated ==> parseOK && res != nil
+//@   nullable res
+//@   modifies *
+//@   callsite (github.com/AdguardTeam/AdGuardHome/internal/aghrenameio.PendingFile).CloseReplace(f) requires updated
+//@   callsite (github.com/AdguardTeam/AdGuardHome/internal/aghrenameio.PendingFile).Cleanup(f) requires !updated
+//@   ensures failure-propagates: !updated && returned != nil ==> err != nil
+//@   ensures metadata-kept: !updated ==> flt.checksum == old(flt.checksum) && flt.RulesCount == old(flt.RulesCount) && flt.Name == old(flt.Name)
+
+//@ func (d *DNSFilter) updateIntl(flt *FilterYAML) (ok bool, err error)
+//@   property C14, C15
+//@   requires filepath.IsAbs(flt.URL) ==> patternsOK(d, filepath.Clean(flt.URL))
+//@   modifies *
+//@   ensures replaced-only-after-successful-parse: ok ==> parseOK
+
+//@ sweep C14 os.WriteFile, os.Create, os.OpenFile, os.Truncate, github.com/google/renameio/v2/maybe.WriteFile, github.com/google/renameio/v2.WriteFile
